@@ -9,6 +9,19 @@ from pathlib import Path
 import urllib.parse
 
 
+def format_integer(value: int) -> str:
+    """
+    Decimal form of an integer for use in diagnostics and in the string forms of types.
+    CPython refuses to convert integers longer than ``sys.get_int_max_str_digits()`` digits (4300 by default)
+    to a decimal string and raises :class:`ValueError`; such integers are rendered in hexadecimal,
+    which is not subject to the limit.
+    """
+    try:
+        return str(value)
+    except ValueError:
+        return hex(value)
+
+
 class Error(Exception):  # PEP8 says that the "Exception" suffix is redundant and should not be used.
     """
     This is the root exception type for all custom exceptions defined in the library.
